@@ -399,4 +399,74 @@ theorem mirror_agrees_reachable {gs : List Group} (ok : GenesisOK gs) (ops : Lis
 
 example : c2.mirror.Perm ([g0, stamped 1 gA].map (·.id)) := by decide
 
+/-! ## H. Write faults: a `Put`/`Delete` that returns an error -/
+
+/-- What durability asks for: when one of the four store writes of `save` fails with an error,
+    the chain is still in a state that represents some list (and the caller can retry). -/
+def FullStatementWriteFault : Prop :=
+  ∀ (l : List Group) (c : Chain) (g : Group) (j : Nat), Rep l c → IdOK g.id → l.length + 1 < lenBound →
+    addCheck c g = .ok → j < 4 → ∃ l', Rep l' (saveF c g (some j)).1
+
+/-- `save` ignores the error value of every `Put`: a failed `Put(gcount)` leaves `Count()=2` in
+    memory over `gcount=1` in the store (known findings writefault:*; replayed with hook H2b). -/
+theorem write_fault_counterexample : ¬ FullStatementWriteFault := by
+  intro h
+  obtain ⟨l', r'⟩ := h [g0] c1 gA 3 rep_c1 (by simp [IdOK, gA, cntKey]) (by simp [lenBound]) (by decide) (by decide)
+  have h1 := r'.count
+  have h2 := r'.cnt
+  have e1 : (saveF c1 gA (some 3)).1.count = 2 := by decide
+  have e2 : sget (saveF c1 gA (some 3)).1.disk cntKey = some (.cnt 1) := by decide
+  rw [e1] at h1
+  rw [e2] at h2
+  simp at h2
+  omega
+
+/-- A fault index beyond the operation's writes changes nothing (the partial, trivial part). -/
+theorem write_fault_beyond (c : Chain) (g : Group) (j : Nat) (hj : 4 ≤ j) :
+    saveF c g (some j) = (save c g, some (j - 4)) := by
+  have : ¬ j < 4 := by omega
+  simp [saveF, this]
+
+/-! ## I. A minimal repair for the crash points of `save` (PROPOSED code, branch hooks/c19-atomic-save)
+
+Is there a re-ordering / grouping of the writes, without a deleting batch, after which every crash
+prefix is recoverable at start-up? For `save`: yes — the group JSON first, then `gcurrent`, the height
+slot and `gcount` through one `NewBatch().Write()` (the `db.Batch` interface has `Put`, which is all
+`save` needs). The theorem below is about that write grouping; it is not what `/repo` runs today
+(the driver and the T-gen facts follow the current code), the searcher was run against the branch.
+For `remove` no grouping of `Put`-only batches works: its two `Delete`s are separate physical writes,
+and each order leaves one prefix that violates a clause (see design/C19.md). -/
+
+/-- The physical writes of the proposed `save`: two, the second one atomic. -/
+def saveWriteGroups (count : Nat) (g : Group) : List (List Write) :=
+  [(saveWrites count g).take 1, (saveWrites count g).drop 1]
+
+/-- EVERY crash prefix of the proposed `save` (0, 1 or 2 physical writes) is read back by start-up as
+    a chain that represents the old list or the old list plus the new group. -/
+theorem inv_crash_save_batched {l : List Group} {c : Chain} (r : Rep l c) (g : Group) (gen : List Group)
+    (hb : l.length + 1 < lenBound) (hid : IdOK g.id) (hok : addCheck c g = .ok) (k : Nat) :
+    ∃ c', restart (applyWrites c.disk ((saveWriteGroups c.count g).take k).flatten) c.mirror gen = some (.alive c') ∧
+      (Rep l c' ∨ Rep (l ++ [stamped l.length g]) c') := by
+  have hfresh : ∀ x ∈ l, x.id ≠ g.id := by
+    intro x hx e
+    have h1 := (addCheck_ok hok).1
+    have := r.stored x hx
+    rw [e] at this
+    simp [shas, this] at h1
+  match k with
+  | 0 =>
+    obtain ⟨c', h1, _, _, _, h5⟩ := rep_restart r c.mirror gen
+    exact ⟨c', by simpa [saveWriteGroups, applyWrites] using h1, Or.inl h5⟩
+  | 1 =>
+    have r1 := r.orphan g.id (.grp (stamped c.count g)) hid hfresh
+    obtain ⟨c', h1, _, _, _, h5⟩ := rep_restart r1 c.mirror gen
+    exact ⟨c', by simpa [saveWriteGroups, saveWrites, applyWrites, applyWrite] using h1, Or.inl h5⟩
+  | k + 2 =>
+    have r2 := (rep_add r g hb hid hok).2
+    obtain ⟨c', h1, _, _, _, h5⟩ := rep_restart r2 c.mirror gen
+    refine ⟨c', ?_, Or.inr h5⟩
+    have : applyWrites c.disk ((saveWriteGroups c.count g).take (k + 2)).flatten = (save c g).disk := by
+      simp [saveWriteGroups, saveWrites, save]
+    rw [this]; exact h1
+
 end Rangers.Props.C19
